@@ -21,6 +21,9 @@ pub struct IcOpts {
     pub excl_f23_array_length_store: bool,
     /// F24: a getter/setter that changes the receiver's shape while the site is being cached
     pub excl_f24_shape_change_in_accessor: bool,
+    /// F31: a cached prototype hit is not invalidated when an own property of that name is added to a
+    /// receiver with a unique shape (global object, builtin namespaces, dictionary-mode objects)
+    pub excl_f31_own_shadow_on_unique_shape: bool,
 }
 
 pub fn generate(tape: &[u8], o: &IcOpts) -> IcProgram {
@@ -42,9 +45,11 @@ pub fn generate(tape: &[u8], o: &IcOpts) -> IcProgram {
     let n_obj = 3 + t.below(6);
     s.push_str("var O = [];\n");
     let mut pool_builtin = vec![];
+    let mut pool_unique = vec![];
     for _ in 0..n_obj {
         let d = *t.pick(&pool_defs);
         pool_builtin.push(matches!(d, "Math" | "JSON" | "Reflect" | "globalThis"));
+        pool_unique.push(matches!(d, "Math" | "JSON" | "Reflect" | "globalThis") || d.contains("var u ="));
         s.push_str(&format!("O.push({d});\n"));
     }
     // access sites
@@ -58,6 +63,7 @@ pub fn generate(tape: &[u8], o: &IcOpts) -> IcProgram {
             0 | 1 => s.push_str(&format!("function {name}(o) {{ return o.{k}; }}\n")),
             2 => {
                 let k = if k == "length" && o.excl_f23_array_length_store { excluded += 1; "x" } else { k };
+                let k = if o.excl_f31_own_shadow_on_unique_shape && pool_unique.iter().any(|u| *u) && !matches!(k, "tmp" | "gx") { excluded += 1; "tmp" } else { k };
                 s.push_str(&format!("function {name}(o, v) {{ o.{k} = v; return o.{k}; }}\n"));
             }
             3 => s.push_str(&format!("function {name}(o) {{ return o.length; }}\n")),
@@ -67,6 +73,7 @@ pub fn generate(tape: &[u8], o: &IcOpts) -> IcProgram {
             7 => s.push_str(&format!("function {name}(o) {{ with (Object(o)) {{ return typeof {k} === 'undefined' ? 'undef' : {k}; }} }}\n")),
             _ => {
                 let k = if k == "length" && o.excl_f23_array_length_store { excluded += 1; "x" } else { k };
+                let k = if o.excl_f31_own_shadow_on_unique_shape && pool_unique.iter().any(|u| *u) && !matches!(k, "tmp" | "gx") { excluded += 1; "gx" } else { k };
                 s.push_str(&format!("function {name}(o, v) {{ 'use strict'; o.{k} = v; return o.{k}; }}\n"));
             }
         }
@@ -120,7 +127,17 @@ pub fn generate(tape: &[u8], o: &IcOpts) -> IcProgram {
                     format!("Object.getPrototypeOf(Object.getPrototypeOf(Object(O[{oi}])) || {{}})")
                 }
             };
-            let gk = if target == "globalThis" { *t.pick(&["gv", "gw", "gx"]) } else { k };
+            let mut gk = if target == "globalThis" { *t.pick(&["gv", "gw", "gx"]) } else { k };
+            if o.excl_f31_own_shadow_on_unique_shape {
+                let on_unique = (target == format!("O[{oi}]") && pool_unique[oi]) || target == "globalThis";
+                if on_unique && !matches!(gk, "tmp" | "gx" | "gv" | "gw") {
+                    gk = *t.pick(&["tmp", "gx"]);
+                    excluded += 1;
+                } else if target_is_proto && matches!(gk, "tmp" | "gx") {
+                    gk = "x";
+                    excluded += 1;
+                }
+            }
             let mut m = match t.below(15) {
                 0 => format!("T.{gk} = 'set{step}';"),
                 1 => format!("delete T.{gk};"),
@@ -142,11 +159,17 @@ pub fn generate(tape: &[u8], o: &IcOpts) -> IcProgram {
                 _ => format!("T.{gk} = T.{gk};"),
             };
             let shape_change = !m.starts_with("T.") || m.contains("T.n") || m.starts_with("delete") || true;
-            if o.excl_f10_proto_shape_change && target_is_proto && warmed && shape_change && !(m.starts_with(&format!("T.{gk} = 'set")) && false) {
+            if o.excl_f10_proto_shape_change && target_is_proto && calls_since_start >= 1 && shape_change && !(m.starts_with(&format!("T.{gk} = 'set")) && false) {
                 // only prototype *replacement* on the receiver and value writes are kept; everything
                 // that restructures a live prototype after warm-up is skipped
                 excluded += 1;
                 continue;
+            }
+            if o.excl_f31_own_shadow_on_unique_shape && ((target == format!("O[{oi}]") && pool_unique[oi]) || target == "globalThis") && m.contains("defineProperty") {
+                // F32: redefining the attributes of a property of a unique-shaped receiver does not
+                // invalidate a cached store site
+                excluded += 1;
+                m = format!("T.{gk} = 'u{step}';");
             }
             if target == format!("O[{oi}]") && pool_builtin[oi] && (m.contains("freeze") || m.contains("seal") || m.contains("preventExtensions") || m.contains("setPrototypeOf")) {
                 m = format!("T.{gk} = 'b{step}';");
